@@ -9,6 +9,10 @@ structure St where
   /-- sharded case: the inner chunks carry a checksum / the index carries a checksum -/
   isum : Bool := false
   icrc : Bool := false
+  /-- a crc32c stage at the top level of the chain: every alteration that changes the decoded data changes the bytes
+  that stage checks, so MULTI-byte corruption is detected too (up to a 2^-32 collision); Fletcher-32 alone gives no such
+  certainty (a run of 0x0000 words replaced by 0xFFFF words has the same sums) -/
+  crcTop : Bool := false
 
 def setField (toks : List String) (k v : String) : List String :=
   toks.map (fun t => if t.startsWith (k ++ "=") then k ++ "=" ++ v else t)
@@ -19,11 +23,23 @@ def getField (toks : List String) (k : String) : Option String :=
 def entryOutOfBounds (off size len : Nat) : Bool :=
   !(off == 18446744073709551615 && size == 18446744073709551615) && off + size > len
 
+/-- the codec names at the top level of a chain description (`shard[…]` contents removed) -/
+def topTokens (chain : String) : List String :=
+  let (_, cur, acc) := chain.toList.foldl (fun (st : Nat × List Char × List String) c =>
+    let (d, cur, acc) := st
+    if c == '[' then (d + 1, cur, acc)
+    else if c == ']' then (d - 1, cur, acc)
+    else if d > 0 then (d, cur, acc)
+    else if c == '|' then (d, [], acc ++ [String.ofList cur])
+    else (d, cur ++ [c], acc)) (0, [], [])
+  acc ++ [String.ofList cur]
+
 def handle (st : St) (l : Line) : Option (St × List String × Option String) := do
   let v1 ← l.verbs[1]?
   if v1 == "cfg" then
     let (b, acc, n) ← DriverC01.handle st.base l
-    pure ({ base := b, prot := (l.get "prot").getD "none", isum := (l.get "isum") == some "1", icrc := (l.get "icrc") == some "1" }, acc, n)
+    pure ({ base := b, prot := (l.get "prot").getD "none", isum := (l.get "isum") == some "1", icrc := (l.get "icrc") == some "1",
+            crcTop := (topTokens ((l.get "chain").getD "")).contains "crc32c" }, acc, n)
   else
     let verb ← l.verbs[2]?
     -- lines after an abort of the child process were not executed
@@ -48,7 +64,9 @@ def handle (st : St) (l : Line) : Option (St × List String × Option String) :=
       else
         -- requirements
         let t := setField toks "panics" "0"
-        let t := if st.prot == "outer" || st.prot == "some" then setField t "full_diff" "0" else t
+        -- different data from a whole-value read: never after ONE altered byte, a truncation or an extension of a protected
+        -- value; after a multi-byte corruption only where detection is certain (the property's own wording)
+        let t := if (st.prot == "outer" || st.prot == "some") && (verb != "multi" || st.crcTop) then setField t "full_diff" "0" else t
         let t := if st.prot == "outer" && verb == "corrupt_all" then setField t "full_same" "0" else t
         -- a shard whose inner chunks carry a checksum: one altered byte outside the index is inside a protected inner
         -- chunk (zarrs writes no gaps), so every whole-value read must fail; likewise inside a checksummed index
